@@ -128,6 +128,7 @@ type WDerive struct {
 	Plans         []int    `json:"plans,omitempty"`          // InitialPackets: pairs (CryptoLength, PacketSize) per datagram
 	GreaseExact   bool     `json:"grease_exact,omitempty"`   // two private parameters with GREASE-shaped IDs (31*N+27) in the list, one of them suppressed by its exact ID
 	DupSuppressed uint64   `json:"dup_suppressed,omitempty"` // a private-use parameter listed several times in the spec and suppressed
+	ISCID         string   `json:"iscid,omitempty"`          // explicit initial_source_connection_id value (hex): goes out as written; the server will reject the connection when it differs from the header's source ID
 }
 
 // ---------------------------------------------------------------- router
